@@ -254,3 +254,10 @@ def run(ctx):
     import runner
     cov, f, k = ({}, [], []) if _chttp.replay_only_chttp(ctx) else runner.correspondence("C11", ctx, __import__("props.c11", fromlist=["x"]))
     return _chttp.second(ctx, "C11", "C11CH", cov, f, k)
+
+
+_gen_c11 = generate
+
+
+def generate(ctx):   # + Relic.Generated.CompressHttp (Relic.Props.C11.generated_buffering_eq)
+    return _gen_c11(ctx) + _chttp.generate(ctx)
